@@ -13,6 +13,13 @@ pub fn generate(tier: &str, rng: &mut Rng) -> Vec<String> {
     out.push("dec req none none 8192 6 Z 0 EV d0100000000".to_string());
     out.push("dec req none 4 8192 6 Z 0 EV d00000000050102030405 d000000000109".to_string());
     out.push("dec req none none 8192 6 Z 0 EV d0000000003ff0102 d000000000109".to_string());
+    // rev1 §1 witness: BufferSettings::new(0, _) + a compressed frame used to divide by zero in
+    // `decompress` (fixed: "a zero buffer_size no longer divides by zero when (de)compressing")
+    for e in [tonic::codec::CompressionEncoding::Gzip, tonic::codec::CompressionEncoding::Deflate, tonic::codec::CompressionEncoding::Zstd] {
+        let stream = frame(1, &oracle_compress(e, &[10, 11, 12]));
+        let evs = vec![format!("d{}", &hex(&stream)[1..])];
+        out.push(DecCase { dir: "req".into(), enc: Some(e), max: None, buf_size: 0, evs, stream, extra_polls: 3 }.line());
+    }
     let n = if thorough { 60000 } else { 5000 };
     for _ in 0..n {
         out.push(gen_dec_hostile(rng).line());
@@ -30,7 +37,7 @@ pub fn generate(tier: &str, rng: &mut Rng) -> Vec<String> {
             let style = rng.below(4);
             let chunks = chunkings(rng, b, &starts, style);
             let evs = events_from_chunks(rng, chunks, false);
-            out.push(DecCase { dir: gen_dir(rng), enc, max: None, buf_size: 16, evs, stream: b.to_vec(), extra_polls: 4 }.line());
+            out.push(DecCase { dir: gen_dir(rng), enc, max: None, buf_size: *rng.pick(&BUF_SIZES), evs, stream: b.to_vec(), extra_polls: 4 }.line());
         }
     }
     if thorough {
